@@ -147,3 +147,21 @@ def pairs(seed, n):
         s = bytes(r.choice(b"0123456789-+:. TZ\x00\xfe") for _ in range(r.randrange(0, 14)))
         out.append((f, s))
     return list(dict.fromkeys(out))
+
+
+def transition_pairs(seed, frac=1.0):
+    """(format, input) pairs without an offset field around the 2011 transitions of the three real zones the
+    driver uses (and London's first, sub-minute one), with seconds 00 / 59 / 60: the answer depends on how the
+    zone's gap or overlap and the leap-second carry interact.  Tried in every zone (tag A)."""
+    r = random.Random(seed * 7919 + 1)
+    dates = ["2011-03-13", "2011-11-06", "2011-03-27", "2011-10-30", "2011-04-03", "2011-10-02", "1847-12-01", "1847-11-30"]
+    out = []
+    for d in dates:
+        for hh in (0, 1, 2, 3, 23):
+            for mm in (0, 1, 29, 30, 59):
+                for ss in (0, 14, 15, 59, 60):
+                    if r.random() <= frac:
+                        out.append((b"%Y-%m-%d %H:%M:%S", ("%s %02d:%02d:%02d" % (d, hh, mm, ss)).encode()))
+                    if ss in (59, 60) and r.random() <= frac:
+                        out.append((b"%Y-%m-%dT%H:%M:%E*S", ("%sT%02d:%02d:%02d.5" % (d, hh, mm, ss)).encode()))
+    return out
